@@ -21,7 +21,7 @@ RUN_WALL_WATCHDOG_S = 120.0
 TIERS = {
     "quick":    {"runs": 60000, "chunk": 60, "wall_cap_s": 75, "max_ops": 80,
                  "det_sample_min": 16, "det_sample_frac": 0.002, "max_reports": 3, "shrink_candidates": 400},
-    "thorough": {"runs": 600000, "chunk": 200, "wall_cap_s": 1500, "max_ops": 160,
+    "thorough": {"runs": 700000, "chunk": 200, "wall_cap_s": 1500, "max_ops": 160,
                  "det_sample_min": 64, "det_sample_frac": 0.0005, "max_reports": 4, "shrink_candidates": 800,
                  "fresh_interpreter_check": True, "fresh_sample": 48},
 }
